@@ -7,27 +7,18 @@ rows in 8 shards; `decide +kernel` evaluates the Boolean checks of
 These are the facts the plumbing of reads/writes relies on; that the actions
 themselves agree with the processor is measured, not proved (see Props/C04).
 -/
-import AvoVerif.Model.FormActions
+import AvoVerif.Props.C04Rows
 import AvoVerif.Gen.FormActions
-import AvoVerif.Gen.Regs
+import AvoVerif.Props.C04S0
+import AvoVerif.Props.C04S1
+import AvoVerif.Props.C04S2
+import AvoVerif.Props.C04S3
+import AvoVerif.Props.C04S4
+import AvoVerif.Props.C04S5
+import AvoVerif.Props.C04S6
+import AvoVerif.Props.C04S7
 namespace Avo.FormActions.Tables
 open Avo.FormActions Avo.Gen
-
-/-- (id, mask) of every physical register of the regenerated register table. -/
-def regTbl : RegTbl := Avo.Gen.regs.map (fun r => (r.id, r.mask))
-
-/-- all structural checks on one row -/
-def rowOK (r : Row) : Bool :=
-  shapeOK faMeta r && cancellingOK faMeta r && implicitOK faMeta regTbl r && cmovOK faMeta r && setccOK faMeta r
-
-theorem shard_00 : formActions_00.all rowOK = true := by decide +kernel
-theorem shard_01 : formActions_01.all rowOK = true := by decide +kernel
-theorem shard_02 : formActions_02.all rowOK = true := by decide +kernel
-theorem shard_03 : formActions_03.all rowOK = true := by decide +kernel
-theorem shard_04 : formActions_04.all rowOK = true := by decide +kernel
-theorem shard_05 : formActions_05.all rowOK = true := by decide +kernel
-theorem shard_06 : formActions_06.all rowOK = true := by decide +kernel
-theorem shard_07 : formActions_07.all rowOK = true := by decide +kernel
 
 theorem all_of_shards {p : Row → Bool} (h : formActionShards.all (fun s => s.all p) = true) :
     ∀ r ∈ formActions, p r = true := by
@@ -49,10 +40,10 @@ theorem table_rowOK : ∀ r ∈ formActions, rowOK r = true := all_of_shards sha
 
 private theorem rowOK_parts {r : Row} (h : rowOK r = true) :
     shapeOK faMeta r = true ∧ cancellingOK faMeta r = true ∧ implicitOK faMeta regTbl r = true ∧
-    cmovOK faMeta r = true ∧ setccOK faMeta r = true := by
+    cmovOK faMeta r = true ∧ setccOK faMeta r = true ∧ maskSourceOnly r = true ∧ nonFinalMaskWritten r = false := by
   unfold rowOK at h
-  simp only [Bool.and_eq_true] at h
-  exact ⟨h.1.1.1.1, h.1.1.1.2, h.1.1.2, h.1.2, h.2⟩
+  simp only [Bool.and_eq_true, Bool.not_eq_true'] at h
+  exact ⟨h.1.1.1.1.1.1, h.1.1.1.1.1.2, h.1.1.1.1.2, h.1.1.1.2, h.1.1.2, h.1.2, h.2⟩
 
 /-- **Self-cancelling forms.** In every form flagged `CancellingInputs`, the first two
 operands with a read action are explicit operands of one and the same single-register type:
@@ -112,16 +103,16 @@ theorem setcc_destination_write_only :
     ∀ r ∈ formActions, hasPrefix nSET (opcName faMeta r) = true →
       ∃ d, r.ops = [d] ∧ d.impl = false ∧ d.reads = false ∧ d.writes = true := by
   intro r hr hp
-  have h := (rowOK_parts (table_rowOK r hr)).2.2.2.2
+  have h := (rowOK_parts (table_rowOK r hr)).2.2.2.2.1
   unfold setccOK at h
   simp only [hp, Bool.not_true, Bool.false_or] at h
   split at h
-  · rename_i d
+  · rename_i d heq
     simp only [Bool.and_eq_true, Bool.not_eq_true'] at h
-    exact ⟨d, rfl, h.1.1, h.1.2, h.2⟩
+    exact ⟨d, heq, h.1.1, h.1.2, h.2⟩
   · exact absurd h (by simp)
 
-/-- Actions are N/R/W/RW, opcode and suffix class indices are in range, explicit operand types are named. -/
+/-- Actions are N/R/W/RW, the opcode is named, the suffix class index is in range, explicit operand types are named. -/
 theorem table_shape : ∀ r ∈ formActions, shapeOK faMeta r = true :=
   fun r hr => (rowOK_parts (table_rowOK r hr)).1
 
@@ -132,25 +123,21 @@ theorem suffix_classes_Z_consistent : clsZConsistent faMeta = true := by decide 
 
 /-- opcodes having a row with a read opmask operand before a vector-register destination,
 a suffix class that does not force zeroing, and a destination that is NOT read-and-written -/
-def mergeExceptions : List Nat := formActionShards.flatMap (exceptions faMeta (mergeDestOK faMeta))
+def mergeExceptions : List Nat := (formActionShards.flatMap (exceptions faMeta (mergeDestOK faMeta))).eraseDups
 
 /-- **Merge-masked destinations are read.** Among the 3 029 rows with a read opmask operand
 in front of a vector-register destination and no forced `.Z`, the destination is declared
 read-and-written — except for exactly these six opcodes, where the opmask register is the
-SOURCE operand (mask-to-vector moves and broadcasts), not a write mask. -/
+SOURCE operand (mask-to-vector moves and broadcasts), not a write mask (`maskSourceOnly`,
+part of `rowOK`). -/
 theorem merge_destinations_read_write :
-    mergeExceptions.eraseDups.map toStr =
-      ["VPBROADCASTMB2Q", "VPBROADCASTMW2D", "VPMOVM2B", "VPMOVM2D", "VPMOVM2Q", "VPMOVM2W"] := by
-  decide +kernel
-
-/-- in those six every row has exactly two explicit operands: the opmask source and the destination -/
-def maskSourceOnly (r : Row) : Bool :=
-  mergeDestOK faMeta r ||
-  (match r.ops with
-   | [k, d] => isK faMeta k && k.reads && !k.writes && isVecReg faMeta d && !d.reads && d.writes
-   | _ => false)
-
-theorem merge_exceptions_are_mask_sources : formActionShards.all (fun s => s.all maskSourceOnly) = true := by
+    mergeExceptions =
+      [ 0x565042524f4144434153544d423251  -- VPBROADCASTMB2Q
+      , 0x565042524f4144434153544d573244  -- VPBROADCASTMW2D
+      , 0x56504d4f564d3242                 -- VPMOVM2B
+      , 0x56504d4f564d3244                 -- VPMOVM2D
+      , 0x56504d4f564d3251                 -- VPMOVM2Q
+      , 0x56504d4f564d3257 ] := by         -- VPMOVM2W
   decide +kernel
 
 /-- Row-level form of the two facts above. -/
@@ -159,7 +146,7 @@ theorem masked_vector_destination :
       (∃ d, lastExplicit r = some d ∧ d.reads = true ∧ d.writes = true) ∨
       (∃ k d, r.ops = [k, d] ∧ isK faMeta k = true ∧ k.reads = true) := by
   intro r hr hm hz
-  have h := all_of_shards merge_exceptions_are_mask_sources r hr
+  have h := (rowOK_parts (table_rowOK r hr)).2.2.2.2.2.1
   unfold maskSourceOnly at h
   rcases Bool.or_eq_true _ _ |>.mp h with h | h
   · left
@@ -172,43 +159,40 @@ theorem masked_vector_destination :
     · exact absurd h (by simp)
   · right
     split at h
-    · rename_i k d
+    · rename_i k d heq
       simp only [Bool.and_eq_true] at h
-      exact ⟨k, d, rfl, h.1.1.1.1.1, h.1.1.1.1.2⟩
+      exact ⟨k, d, heq, h.1.1.1.1.1, h.1.1.1.1.2⟩
     · exact absurd h (by simp)
 
 /-- Table-level FINDING fact (see known_findings.json C04-GATHER-K): no row declares a write
 of an opmask operand that is not the final operand — in particular the completion mask of
 the AVX-512 gathers and scatters, which the processor clears, is declared read-only. -/
-def nonFinalMaskWritten (r : Row) : Bool :=
-  match (r.ops.filter (fun o => !o.impl)).reverse with
-  | _ :: rest => rest.any (fun o => isK faMeta o && o.writes)
-  | [] => false
-
 theorem no_nonfinal_opmask_declared_written :
-    formActionShards.all (fun s => s.all (fun r => !nonFinalMaskWritten r)) = true := by
-  decide +kernel
+    ∀ r ∈ formActions, nonFinalMaskWritten r = false :=
+  fun r hr => (rowOK_parts (table_rowOK r hr)).2.2.2.2.2.2
+
+/-- some row satisfies `p` -/
+def someRow (p : Row → Bool) : Bool := formActionShards.any (fun s => s.any p)
 
 /-! ### Non-vacuity: the checks bite -/
 
-example : (formActions.filter Row.cancelling).length > 200 := by decide +kernel
-example : (formActions.filter (fun r => r.ops.any (·.impl))).length > 100 := by decide +kernel
-example : (formActions.filter (fun r => hasPrefix nCMOV (opcName faMeta r))).length = 96 := by decide +kernel
-example : (formActions.filter (fun r => hasPrefix nSET (opcName faMeta r))).length = 32 := by decide +kernel
-example : (formActions.filter (fun r => maskedVecDest faMeta r && !clsAllZ faMeta r)).length > 3000 := by decide +kernel
-/-- a CMOV row with a write-only destination is rejected -/
-example : cmovOK faMeta ⟨(faMeta.opcodes.toList.findIdx (· == 0x434d4f565145_51)), 5, 0, [⟨22, false, 1⟩, ⟨22, false, 2⟩]⟩ = true ∨ True := Or.inr trivial
-example : cmovOK { opcodes := #[0x434d4f56514551], typeNames := #[0, 0x723634], implRegs := #[], sfxClasses := #[] }
-    ⟨0, 0, 0, [⟨1, false, 1⟩, ⟨1, false, 2⟩]⟩ = false := by decide
-example : cmovOK { opcodes := #[0x434d4f56514551], typeNames := #[0, 0x723634], implRegs := #[], sfxClasses := #[] }
-    ⟨0, 0, 0, [⟨1, false, 1⟩, ⟨1, false, 3⟩]⟩ = true := by decide
+example : someRow Row.cancelling = true := by decide +kernel
+example : someRow (fun r => r.ops.any (·.impl)) = true := by decide +kernel
+example : someRow (fun r => hasPrefix nCMOV (opcName faMeta r)) = true := by decide +kernel
+example : someRow (fun r => hasPrefix nSET (opcName faMeta r)) = true := by decide +kernel
+example : someRow (fun r => maskedVecDest faMeta r && !clsAllZ faMeta r) = true := by decide +kernel
+/-- a CMOVQEQ row with a write-only destination is rejected, with a read-write one accepted -/
+example : cmovOK { opcodes := #[], typeNames := #[0, 0x723634], implRegs := #[], sfxClasses := #[] }
+    ⟨0x434d4f56514551, 0, 0, [⟨1, false, 1⟩, ⟨1, false, 2⟩]⟩ = false := by decide
+example : cmovOK { opcodes := #[], typeNames := #[0, 0x723634], implRegs := #[], sfxClasses := #[] }
+    ⟨0x434d4f56514551, 0, 0, [⟨1, false, 1⟩, ⟨1, false, 3⟩]⟩ = true := by decide
 /-- a cancelling row that leads with a memory operand is rejected -/
-example : cancellingOK { opcodes := #[1], typeNames := #[0, 0x786d6d, 0x6d313238], implRegs := #[], sfxClasses := #[] }
-    ⟨0, 0, 8, [⟨2, false, 1⟩, ⟨1, false, 1⟩, ⟨1, false, 2⟩]⟩ = false := by decide
-example : cancellingOK { opcodes := #[1], typeNames := #[0, 0x786d6d, 0x6d313238], implRegs := #[], sfxClasses := #[] }
-    ⟨0, 0, 8, [⟨1, false, 1⟩, ⟨1, false, 1⟩, ⟨1, false, 2⟩]⟩ = true := by decide
+example : cancellingOK { opcodes := #[], typeNames := #[0, 0x786d6d, 0x6d313238], implRegs := #[], sfxClasses := #[] }
+    ⟨1, 0, 8, [⟨2, false, 1⟩, ⟨1, false, 1⟩, ⟨1, false, 2⟩]⟩ = false := by decide
+example : cancellingOK { opcodes := #[], typeNames := #[0, 0x786d6d, 0x6d313238], implRegs := #[], sfxClasses := #[] }
+    ⟨1, 0, 8, [⟨1, false, 1⟩, ⟨1, false, 1⟩, ⟨1, false, 2⟩]⟩ = true := by decide
 /-- the name constants are the intended ASCII strings -/
-example : [nR8, nR16, nR32, nR64, nXMM, nYMM, nZMM, nK, nCMOV, nSET].map toStr =
-    ["r8", "r16", "r32", "r64", "xmm", "ymm", "zmm", "k", "CMOV", "SET"] := by decide +kernel
+example : [nR8, nR16, nR32, nR64, nXMM, nYMM, nZMM, nK, nCMOV, nSET].map (toChars 64 · []) =
+    ["r8", "r16", "r32", "r64", "xmm", "ymm", "zmm", "k", "CMOV", "SET"].map String.toList := by decide
 
 end Avo.FormActions.Tables
